@@ -88,7 +88,9 @@ class Interp:
         self.ext_calls = []       # (qualified name, node, mod, where, nargs, kwnames)
         self.draws = []           # (method, receiver AV, node, mod, where)
         self.unresolved = []
+        self.cb_calls = []
         self.cond = 0
+        self.weak = 0
         self.fresh_n = 0
         self.visited_fns = set()
         self.default_objs = {}
@@ -163,6 +165,10 @@ class Interp:
                     closure=None):
         if isinstance(fn, model.ClassInfo):
             return self.instantiate(fn, pos, kw, node)
+        summ = (self.opts.get('summary') or {}).get(fn.qualname)
+        if summ is not None and not entry:
+            self.visited_fns.add(fn.qualname)
+            return summ(self, fn, pos, kw, node)
         depth = len(self.stack)
         if depth >= MAX_DEPTH or any(fr.fn is fn for fr in self.stack):
             # recursion / depth bound: result unknown, arguments untouched
@@ -481,8 +487,10 @@ class Interp:
             e = env
             self.refine(st.test, e, False)
             return self.exec_block(st.orelse, e)
-        # undecided: both arms
-        e1 = dict(env)
+        # undecided: both arms.  The first arm runs on a forked copy of the
+        # heap reachable from the environment (strong updates, isolated from
+        # the second arm); heaps are merged back where both arms fall through.
+        e1, pairs = fork_env(env)
         e2 = dict(env)
         self.refine(st.test, e1, True)
         self.refine(st.test, e2, False)
@@ -496,10 +504,26 @@ class Interp:
             o2 = self.exec_block(st.orelse, e2)
         finally:
             self.cond -= 1
-        outs = o1 + o2
-        nxt = [o.env for o in outs if o.kind == 'next']
-        rest = [o for o in outs if o.kind != 'next']
-        if len(nxt) == 2:
+        n1 = [o.env for o in o1 if o.kind == 'next']
+        n2 = [o.env for o in o2 if o.kind == 'next']
+        rest = [o for o in o1 + o2 if o.kind != 'next']
+        entry = len(self.stack) <= 1
+        cont1 = [o for o in o1 if o.kind in ('brk', 'cont') or
+                 (o.kind in ('ret', 'raise') and not entry)]
+        if n1 or cont1:
+            # the other arm continues on the original heap unless all of its
+            # outcomes leave the analysed entry function
+            other_continues = any(o.kind in ('next', 'brk', 'cont') or
+                                  not entry for o in o2)
+            merge_heap(pairs, both=other_continues or not n1)
+            n1 = [unfork_env(e, pairs) for e in n1]
+            rev = {id(c): o for o, c in pairs.values()}
+            for o in cont1:
+                o.env = unfork_env(o.env, pairs)
+                if o.val is not None and isinstance(o.val, AV):
+                    o.val = _map_back(o.val, rev, set())
+        nxt = n1 + n2
+        if len(nxt) >= 2:
             merged = self.join_envs(nxt)
             return rest + [Outcome('next', merged)]
         return rest + [Outcome('next', e) for e in nxt]
@@ -530,11 +554,13 @@ class Interp:
             undecided = t is None
             if undecided:
                 self.cond += 1
+                self.weak += 1
             try:
                 outs = self.exec_block(st.body, dict(cur))
             finally:
                 if undecided:
                     self.cond -= 1
+                    self.weak -= 1
             nxt = []
             for oc in outs:
                 if oc.kind in ('next', 'cont'):
@@ -603,6 +629,7 @@ class Interp:
             body_out = None
             if may_zero:
                 self.cond += 1
+                self.weak += 1
             try:
                 for rnd in range(SYM_ROUNDS + 1):
                     cur = dict(head)
@@ -631,6 +658,7 @@ class Interp:
             finally:
                 if may_zero:
                     self.cond -= 1
+                    self.weak -= 1
             finals = list(exits)
             if body_out is not None:
                 finals.append(body_out)
@@ -690,6 +718,7 @@ class Interp:
         # handlers: analysed from the pre-try state joined with body state
         if st.handlers:
             self.cond += 1
+            self.weak += 1
             try:
                 for h in st.handlers:
                     hv = dict(base if not nxt else self.join_envs([base] + nxt))
@@ -703,6 +732,7 @@ class Interp:
                             results.append(o)
             finally:
                 self.cond -= 1
+                self.weak -= 1
         else:
             results.extend(raised)
         if st.orelse and nxt:
@@ -743,7 +773,7 @@ class Interp:
         elif isinstance(target, ast.Attribute):
             base = self.eval(target.value, env)
             if base.k == 'obj':
-                if self.cond > 0 and target.attr in base.attrs:
+                if self.weak > 0 and target.attr in base.attrs:
                     base.attrs[target.attr] = join(base.attrs[target.attr], v)
                 else:
                     base.attrs[target.attr] = v
@@ -801,7 +831,7 @@ class Interp:
             if base.items is not None and idx.k == 'int' and idx.has_const():
                 i = idx.c
                 if -len(base.items) <= i < len(base.items):
-                    if self.cond > 0 and not same_object:
+                    if self.weak > 0 and not same_object:
                         base.items[i] = join(base.items[i], v)
                     else:
                         base.items[i] = v
@@ -821,7 +851,7 @@ class Interp:
         if base.k == 'dict':
             self.effect('dict-write', base, st)
             if idx.has_const() and idx.k in ('str', 'int'):
-                if self.cond > 0 and idx.c in base.keys:
+                if self.weak > 0 and idx.c in base.keys:
                     base.keys[idx.c] = join(base.keys[idx.c], v)
                 else:
                     base.keys[idx.c] = v
@@ -840,7 +870,7 @@ class Interp:
                     its = None
                     if idx.k == 'int' and idx.has_const() and v.k == 'int' \
                             and -len(base.items) <= idx.c < len(base.items) \
-                            and self.cond == 0:
+                            and self.weak == 0:
                         its = list(base.items)
                         its[idx.c] = v
                     nb.items = its
@@ -1126,11 +1156,13 @@ class Interp:
         self.add_fact(e1, node.test, True)
         self.add_fact(e2, node.test, False)
         self.cond += 1
+        self.weak += 1
         try:
             a = self.eval(node.body, e1)
             b = self.eval(node.orelse, e2)
         finally:
             self.cond -= 1
+            self.weak -= 1
         return self.np.join_ifexp(a, b, node)
 
     def ex_BoolOp(self, node, env):
@@ -1380,6 +1412,7 @@ class Interp:
         # unknown callable (user callback): arguments escape by reference
         self.unresolved.append((self.where(), model.norm_src(self.mod(), node)
                                 if self.mod() else ''))
+        self.cb_calls.append((self.where(), node, list(pos), dict(kw)))
         r = TOP('call')
         return r
 
@@ -1411,7 +1444,7 @@ class Interp:
     # helpers used by npmodel
     def list_extend(self, lst, other):
         if lst.items is not None and other.k in ('list', 'tuple', 'iter') and \
-                other.items is not None and self.cond == 0:
+                other.items is not None and self.weak == 0:
             lst.items.extend(other.items)
         else:
             el = []
@@ -1453,6 +1486,113 @@ def _flat_labels(label):
 def env_key(env):
     return tuple(sorted((n, v.key()) for n, v in env.items()
                         if not n.startswith('$') and isinstance(v, AV)))
+
+
+def _heap_children(v):
+    if v.k in ('list', 'tuple'):
+        return list(v.items or []) + ([v.elem] if v.elem is not None else [])
+    if v.k == 'dict':
+        return list((v.keys or {}).values()) + \
+            ([v.elem] if v.elem is not None else [])
+    if v.k == 'obj':
+        return list((v.attrs or {}).values())
+    return []
+
+
+def fork_env(env):
+    """Copy of env in which every mutable heap value (list / dict / object)
+    reachable from it is cloned, preserving sharing.  -> (env', pairs) with
+    pairs: id(orig) -> (orig, clone)."""
+    pairs = {}
+
+    def clone(v):
+        if not isinstance(v, AV):
+            return v
+        if v.k in ('list', 'dict', 'obj') or (v.k == 'tuple' and v.items):
+            if id(v) in pairs:
+                return pairs[id(v)][1]
+            c = v.copy()
+            if v.k != 'tuple':
+                pairs[id(v)] = (v, c)
+            if v.items is not None:
+                c.items = [clone(x) for x in v.items]
+            if v.elem is not None:
+                c.elem = clone(v.elem)
+            if v.keys is not None:
+                c.keys = {k: clone(x) for k, x in v.keys.items()}
+            if v.attrs is not None:
+                c.attrs = {k: clone(x) for k, x in v.attrs.items()}
+            return c
+        if v.k == 'func' and v.self_ is not None:
+            c = v.copy()
+            c.self_ = clone(v.self_)
+            return c
+        return v
+    out = {}
+    for n, v in env.items():
+        out[n] = clone(v) if isinstance(v, AV) else v
+    return out, pairs
+
+
+def _map_back(v, rev, seen):
+    """Replace clones by their originals inside value v."""
+    if not isinstance(v, AV):
+        return v
+    if id(v) in rev:
+        return rev[id(v)]
+    if id(v) in seen:
+        return v
+    if v.k in ('list', 'dict', 'obj', 'tuple'):
+        seen.add(id(v))
+        if v.items is not None:
+            v.items = [_map_back(x, rev, seen) for x in v.items]
+        if v.elem is not None:
+            v.elem = _map_back(v.elem, rev, seen)
+        if v.keys is not None:
+            v.keys = {k: _map_back(x, rev, seen) for k, x in v.keys.items()}
+        if v.attrs is not None:
+            v.attrs = {k: _map_back(x, rev, seen) for k, x in v.attrs.items()}
+    return v
+
+
+def merge_heap(pairs, both):
+    """Write the state of the forked heap back into the original objects:
+    joined with the originals' state when the other arm also falls through,
+    otherwise replacing it."""
+    rev = {id(c): o for o, c in pairs.values()}
+    seen = set()
+    for o, c in pairs.values():
+        # contents of the clone with nested clones mapped to originals
+        if c.items is not None:
+            c.items = [_map_back(x, rev, seen) for x in c.items]
+        if c.elem is not None:
+            c.elem = _map_back(c.elem, rev, seen)
+        if c.keys is not None:
+            c.keys = {k: _map_back(x, rev, seen) for k, x in c.keys.items()}
+        if c.attrs is not None:
+            c.attrs = {k: _map_back(x, rev, seen) for k, x in c.attrs.items()}
+    for o, c in pairs.values():
+        if both:
+            if o.k == 'obj':
+                attrs = {}
+                for k in set(o.attrs or {}) | set(c.attrs or {}):
+                    a, b = (o.attrs or {}).get(k), (c.attrs or {}).get(k)
+                    attrs[k] = join(a, b) if a is not None and b is not None \
+                        else (a or b)
+                o.attrs = attrs
+                continue
+            j = join(o, c)
+            o.items, o.elem, o.p, o.keys = j.items, j.elem, j.p, j.keys
+        else:
+            o.items, o.elem, o.p, o.keys, o.attrs = \
+                c.items, c.elem, c.p, c.keys, c.attrs
+
+
+def unfork_env(env, pairs):
+    rev = {id(c): o for o, c in pairs.values()}
+    seen = set()
+    return {n: (_map_back(v, rev, seen) if isinstance(v, AV) else v)
+            for n, v in env.items()}
 
 
 def snapshot(v, memo=None):
